@@ -80,6 +80,7 @@ type Explorer struct {
 	FuncsSeen   map[string]bool
 	ModelsHit   map[string]bool
 	MaxVectors  int
+	queryNo     int64
 	SkippedQ    int64
 	Instr       int64
 }
@@ -176,6 +177,7 @@ type Path struct {
 	needChk bool // prefix came without model
 	QTimeout time.Duration
 	usedMapOrder bool
+	XCheckEvery int
 	known map[*sym.Term]bool
 	auxPrefix []uint64
 	tb map[*sym.Term]ival
@@ -274,6 +276,17 @@ func (p *Path) query(extra *sym.Term, wantModel bool) (solver.Result, sym.Model)
 		m = p.readModel()
 		if m == nil {
 			r = solver.Unknown
+		}
+	}
+	if r != solver.Unknown && p.XCheckEvery > 0 {
+		// thorough tier: a sample of z3's answers is re-decided by cvc5
+		if n := atomic.AddInt64(&p.Ex.queryNo, 1); n%int64(p.XCheckEvery) == 0 {
+			x := solver.CrossCheck(p.sv.Script.String(), 30*time.Second)
+			if x != solver.Unknown && x != r {
+				atomic.AddInt64(&solver.Global.Disagreements, 1)
+				r = solver.Unknown // a disagreement makes the query inconclusive
+				m = nil
+			}
 		}
 	}
 	if r == solver.Unknown {
